@@ -345,7 +345,6 @@ Proof.
 Qed.
 
 (** * Sums over node lists *)
-Definition sumF (G : N -> Z) (l : list N) : Z := fold_right (fun p acc => G p + acc) 0 l.
 
 Lemma map_upd_notin {V} (l : list (N * V)) n (f : V -> V) :
   ~ In n (map fst l) -> map (fun p => if N.eqb (fst p) n then (fst p, f (snd p)) else p) l = l.
